@@ -1,9 +1,172 @@
 import PersimVerif.Drv.Util
-/-! driver commands: Image (stub until the model lands) -/
+import PersimVerif.Model.Image
+import PersimVerif.Model.Erfc
+/-!
+  driver commands for C04 / C11 (model `Model/Image.lean`)
+
+    img.mesh     <bpnts> <ppnts>                                   → [bb, pp]   (Rat; the flat arrays handed to the kernel)
+    img.assemble <rx> <ry> <bpnts> <ppnts> <dgm> <skew> <wspec> <tables>
+                 tables[k] = the REAL kernel's flat output for point k → image (Float; `generalPath`)
+    img.fast     <rx> <ry> <bpnts> <ppnts> <dgm> <skew> <wspec> <variance>   → image (Float; `fastPath`, Φ = Erfc.normCdf)
+    img.one      <rx> <ry> <bpnts> <ppnts> <dgm> <skew> <wspec> <kspec>      → image (Float; `transformOne` incl. dispatch)
+    img.uniform  <rx> <ry> <bpnts> <ppnts> <dgm> <skew> <wspec> <width> <height> → image (Rat, exact; `transformOne`)
+    img.dispatch <kspec>                                            → [fast,v] | general   (Float `==`, as the code)
+    img.coll     <rx> <ry> <bpnts> <ppnts> <input> <skew> <wspec> <width> <height> <n_jobs|none>
+                 input = [dgm,<dgm>] | [coll,[<dgm>,…]]              → [img,M] | [imgs,[M,…]]  (Rat; `transform`, uniform kernel)
+    img.ensure   <input>                                            → [number of diagrams, singular]
+
+    wspec = [pers,n] | [ramp,low,high,start,end] | [raw,[w,…]] (raw: `img.assemble` only)
+    kspec = [gaussian,[scalar,s]] | [gaussian,[matrix,s00,s01,s10,s11]] | [uniform,width,height] | [other]
+  Errors: err:ValueError (shape / reshape), err:IndexError.
+-/
 namespace PersimVerif.Drv.Image
-open PersimVerif Val PersimVerif.Drv
+open PersimVerif Val PersimVerif.Drv PersimVerif.Image
+
+def errVal : Err → Val
+  | .shape => err "ValueError"
+  | .reshape => err "ValueError"
+  | .index => err "IndexError"
+
+def outF : Except Err (Mat Float) → Val
+  | .ok m => ofFloatMat m
+  | .error e => errVal e
+
+def outR : Except Err (Mat Rat) → Val
+  | .ok m => ofRatMat m
+  | .error e => errVal e
+
+/-- built-in weight at `Float` -/
+def weightF? : Val → Option (Pt Float → Float)
+  | .list [.str "pers", n] => do
+    let n ← asFloat? n
+    pure (persistenceW Float.pow n)
+  | .list [.str "ramp", a, b, c, d] => do
+    pure (linearRamp (← asFloat? a) (← asFloat? b) (← asFloat? c) (← asFloat? d))
+  | _ => none
+
+def ratPow (x : Rat) (n : Rat) : Rat := x ^ n.num.toNat
+
+/-- built-in weight at `Rat` (`pers` with a natural exponent only) -/
+def weightR? : Val → Option (Pt Rat → Rat)
+  | .list [.str "pers", n] => do
+    let n ← asNat? n
+    pure (persistenceW ratPow (n : Rat))
+  | .list [.str "ramp", a, b, c, d] => do
+    pure (linearRamp (← asRat? a) (← asRat? b) (← asRat? c) (← asRat? d))
+  | _ => none
+
+def sigmaF? : Val → Option (Sigma Float)
+  | .list [.str "scalar", s] => do pure (.scalar (← asFloat? s))
+  | .list [.str "matrix", a, b, c, d] => do
+    pure (.matrix (← asFloat? a) (← asFloat? b) (← asFloat? c) (← asFloat? d))
+  | _ => none
+
+def inputR? : Val → Option (Input Rat)
+  | .list [.str "dgm", d] => do pure (.dgm (← ratDgm? d))
+  | .list [.str "coll", ds] => do pure (.coll (← listOf? ratDgm? ds))
+  | _ => none
+
+def idR : Rat → Rat := fun x => x
 
 def handle : Handler
+  | "img.mesh", [b, p] => do
+    let bs ← listOf? asRat? b
+    let ps ← listOf? asRat? p
+    let m := flatMesh bs ps
+    pure (.list [ofRats m.1, ofRats m.2])
+  | "img.assemble", [rx, ry, b, p, d, sk, ws, tabs] => do
+    let rx ← asNat? rx
+    let ry ← asNat? ry
+    let bs ← listOf? asFloat? b
+    let ps ← listOf? asFloat? p
+    let dgm ← floatDgm? d
+    let sk ← asBool? sk
+    let tables ← listOf? (listOf? asFloat?) tabs
+    let bp := toBP sk dgm
+    let wts ← match ws with
+      | .list [.str "raw", l] => listOf? asFloat? l
+      | _ => do let w ← weightF? ws; pure (bp.map w)
+    if wts.length ≠ bp.length ∨ tables.length ≠ bp.length then none
+    else
+      let pws := (List.range bp.length).zip wts
+      pure (outF (generalPath (fun (k : Nat) _ _ => tables.getD k []) rx ry bs ps pws))
+  | "img.fast", [rx, ry, b, p, d, sk, ws, v] => do
+    let rx ← asNat? rx
+    let ry ← asNat? ry
+    let bs ← listOf? asFloat? b
+    let ps ← listOf? asFloat? p
+    let dgm ← floatDgm? d
+    let sk ← asBool? sk
+    let w ← weightF? ws
+    let v ← asFloat? v
+    pure (outF (fastPath Float.sqrt Erfc.normCdf v rx ry bs ps (withWeights w (toBP sk dgm))))
+  | "img.one", [rx, ry, b, p, d, sk, ws, ks] => do
+    let rx ← asNat? rx
+    let ry ← asNat? ry
+    let bs ← listOf? asFloat? b
+    let ps ← listOf? asFloat? p
+    let dgm ← floatDgm? d
+    let sk ← asBool? sk
+    let w ← weightF? ws
+    match ks with
+    | .list [.str "gaussian", s] => do
+      let σ ← sigmaF? s
+      match σ.toMatrix with
+      | (s00, s01, _, s11) =>
+        -- the correlated kernel (bvn_cdf) is C13's model; here only the zero-covariance product form
+        if s01 != 0 then none
+        else
+          pure (outF (transformOne Float.sqrt Erfc.normCdf w (.gaussian σ)
+            (vectorize (prodKernel Float.sqrt Erfc.normCdf s00 s11)) rx ry bs ps sk dgm))
+    | .list [.str "uniform", wd, ht] => do
+      let wd ← asFloat? wd
+      let ht ← asFloat? ht
+      pure (outF (transformOne Float.sqrt Erfc.normCdf w .other
+        (vectorize (uniformKernel wd ht)) rx ry bs ps sk dgm))
+    | _ => none
+  | "img.uniform", [rx, ry, b, p, d, sk, ws, wd, ht] => do
+    let rx ← asNat? rx
+    let ry ← asNat? ry
+    let bs ← listOf? asRat? b
+    let ps ← listOf? asRat? p
+    let dgm ← ratDgm? d
+    let sk ← asBool? sk
+    let w ← weightR? ws
+    let wd ← asRat? wd
+    let ht ← asRat? ht
+    pure (outR (transformOne idR idR w .other (vectorize (uniformKernel wd ht)) rx ry bs ps sk dgm))
+  | "img.dispatch", [ks] =>
+    match ks with
+    | .list [.str "gaussian", s] => do
+      let σ ← sigmaF? s
+      match dispatch (.gaussian σ) with
+      | .fast v => pure (.list [.str "fast", .flt v])
+      | .general => pure (.str "general")
+    | .list (.str _ :: _) =>
+      match dispatch (KernelChoice.other : KernelChoice Float) with
+      | .fast v => pure (.list [.str "fast", .flt v])
+      | .general => pure (.str "general")
+    | _ => none
+  | "img.coll", [rx, ry, b, p, inp, sk, ws, wd, ht, nj] => do
+    let rx ← asNat? rx
+    let ry ← asNat? ry
+    let bs ← listOf? asRat? b
+    let ps ← listOf? asRat? p
+    let x ← inputR? inp
+    let sk ← asBool? sk
+    let w ← weightR? ws
+    let wd ← asRat? wd
+    let ht ← asRat? ht
+    let nj ← optOf? asNat? nj
+    let one := transformOne idR idR w .other (vectorize (uniformKernel wd ht)) rx ry bs ps sk
+    match transform one rx ry nj x with
+    | .ok (.img m) => pure (.list [.str "img", ofRatMat m])
+    | .ok (.imgs ms) => pure (.list [.str "imgs", .list (ms.map ofRatMat)])
+    | .error e => pure (errVal e)
+  | "img.ensure", [inp] => do
+    let x ← inputR? inp
+    let r := ensureIterable x
+    pure (.list [Val.ofNat r.1.length, ofBool r.2])
   | _, _ => none
 
 end PersimVerif.Drv.Image
